@@ -86,8 +86,11 @@ def _record_reads_as_box(content, natoms_read):
 
 
 def _bytes(path):
-    with open(path, "rb") as f:
-        return f.read()
+    try:
+        with open(path, "rb") as f:
+            return f.read()
+    except FileNotFoundError:          # a writer that never created its file left nothing that could be read
+        return b""
 
 
 def judge(kind, res, must_reject, complete_records, where, hist, content=None):
